@@ -21,7 +21,7 @@ theorem ceil_div_u32_correct (a b : Int) (ha : IntTy.u32.InRange a) (hb : IntTy.
   have h2 : a % b < b := Int.emod_lt_of_pos a hb0
   have h3 : 0 ≤ a / b := Int.ediv_nonneg ha0 (Int.le_of_lt hb0)
   have h4 : a / b ≤ a := Int.ediv_le_self b ha0
-  simp only [ceil_div_u32]
+  gen_unfold_ceil_div
   c06_norm
   rw [e1, e2]
   generalize a / b = q at *
@@ -29,7 +29,7 @@ theorem ceil_div_u32_correct (a b : Int) (ha : IntTy.u32.InRange a) (hb : IntTy.
   c06_finish
 
 theorem ceil_div_u32_zero (a : Int) : ceil_div_u32 a 0 = .ok none := by
-  simp only [ceil_div_u32]; c06_norm; rfl
+  gen_unfold_ceil_div; c06_zero
 
 theorem ceil_div_u64_correct (a b : Int) (ha : IntTy.u64.InRange a) (hb : IntTy.u64.InRange b) (hnz : b ≠ 0) :
     ∃ q, ceil_div_u64 a b = .ok (some q) ∧ IsCeilDiv a b q := by
@@ -43,7 +43,7 @@ theorem ceil_div_u64_correct (a b : Int) (ha : IntTy.u64.InRange a) (hb : IntTy.
   have h2 : a % b < b := Int.emod_lt_of_pos a hb0
   have h3 : 0 ≤ a / b := Int.ediv_nonneg ha0 (Int.le_of_lt hb0)
   have h4 : a / b ≤ a := Int.ediv_le_self b ha0
-  simp only [ceil_div_u64]
+  gen_unfold_ceil_div
   c06_norm
   rw [e1, e2]
   generalize a / b = q at *
@@ -51,7 +51,7 @@ theorem ceil_div_u64_correct (a b : Int) (ha : IntTy.u64.InRange a) (hb : IntTy.
   c06_finish
 
 theorem ceil_div_u64_zero (a : Int) : ceil_div_u64 a 0 = .ok none := by
-  simp only [ceil_div_u64]; c06_norm; rfl
+  gen_unfold_ceil_div; c06_zero
 
 theorem ceil_div_signed_i32_correct (a b : Int) (ha : IntTy.i32.InRange a) (hb : IntTy.i32.InRange b) (hnz : b ≠ 0)
     (hrep : ∀ q, IsCeilDiv a b q → IntTy.i32.InRange q) :
@@ -60,14 +60,17 @@ theorem ceil_div_signed_i32_correct (a b : Int) (ha : IntTy.i32.InRange a) (hb :
   have hin := hrep _ hc
   refine ⟨_, ?_, hc⟩
   have hab : (Int.tdiv a b).natAbs ≤ a.natAbs := Int.natAbs_tdiv_le_natAbs a b
-  simp only [ceil_div_signed_i32]
+  have hr1 := tmod_abs_lt a b
+  have hr2 := tmod_sign a b
+  have hdm := Int.mul_tdiv_add_tmod a b
+  gen_unfold_ceil_div_signed
   c06_norm
   generalize Int.tdiv a b = q at *
   generalize Int.tmod a b = r at *
   c06_finish
 
 theorem ceil_div_signed_i32_zero (a : Int) : ceil_div_signed_i32 a 0 = .ok none := by
-  simp only [ceil_div_signed_i32]; c06_norm; rfl
+  gen_unfold_ceil_div_signed; c06_zero
 
 theorem ceil_div_signed_i64_correct (a b : Int) (ha : IntTy.i64.InRange a) (hb : IntTy.i64.InRange b) (hnz : b ≠ 0)
     (hrep : ∀ q, IsCeilDiv a b q → IntTy.i64.InRange q) :
@@ -76,13 +79,16 @@ theorem ceil_div_signed_i64_correct (a b : Int) (ha : IntTy.i64.InRange a) (hb :
   have hin := hrep _ hc
   refine ⟨_, ?_, hc⟩
   have hab : (Int.tdiv a b).natAbs ≤ a.natAbs := Int.natAbs_tdiv_le_natAbs a b
-  simp only [ceil_div_signed_i64]
+  have hr1 := tmod_abs_lt a b
+  have hr2 := tmod_sign a b
+  have hdm := Int.mul_tdiv_add_tmod a b
+  gen_unfold_ceil_div_signed
   c06_norm
   generalize Int.tdiv a b = q at *
   generalize Int.tmod a b = r at *
   c06_finish
 
 theorem ceil_div_signed_i64_zero (a : Int) : ceil_div_signed_i64 a 0 = .ok none := by
-  simp only [ceil_div_signed_i64]; c06_norm; rfl
+  gen_unfold_ceil_div_signed; c06_zero
 
 end Fcppt.C06
